@@ -389,6 +389,11 @@ class RuleRunner:
                         (not changed, "modified: " + ", ".join(changed) if changed else "shallow field identity", None))
                     ens = contract.ensures(*args, r) if len(inspect.signature(contract.ensures).parameters) == len(args) + 1 \
                         else contract.ensures(*_pad(args, contract), r)
+                    from cola.ops.operator_base import LinearOperator as _LO
+                    if isinstance(r, _LO) and not self.spec.get("only_annotations"):
+                        devs = {repr(getattr(a_, "device", None)) for a_ in args if isinstance(a_, _LO)}
+                        if len(devs) == 1:
+                            ens = list(ens) + [("the result lives on the device of the operand(s)", repr(getattr(r, "device", None)) in devs)]
                     if self.spec.get("check_annotations"):
                         ens = list(ens) if not self.spec.get("only_annotations") else []
                         ens += annotation_clauses(args, r)
